@@ -93,7 +93,15 @@ class Sim:
         self.done_order = []
         self.next_id = 0
         self.pending_ov = {}
+        self.closing = {}
         F.DISPATCH["cbov"] = self._cbov
+        F.DISPATCH["cbox"] = self._cbox
+
+    def _cbox(self, node):
+        rec = self.closing.pop(node["id"], None)
+        if rec is not None:
+            rec["cm"].__exit__(None, None, None)
+        return node["ret"]
 
     def _cbov(self, node):
         self.pending_ov.pop(node["id"])["cm"].__enter__()
@@ -182,6 +190,10 @@ class Sim:
             cb = {"id": 0, "fn": "cbov", "u0": 0, "w0": 0, "ru": None, "rw": None, "pre": [], "post": [],
                   "via": False, "catch": False, "raises": False, "ret": 0, "spec": node["enter_ov"]}
             node = dict(node, pre=[cb] + list(node["pre"]))
+            if node.get("own_exit"):
+                # ... and leaves it itself after the first yield (if the driver has not ended it yet)
+                cbx = dict(cb, fn="cbox")
+                node = dict(node, post=[cbx] + list(node["post"]))
             self.flags.add("overlay-entered-by-generator-body")
         (node,) = self._renumber([node], idx)
         g = self.tf["ga"](copy.deepcopy(node))
@@ -209,13 +221,23 @@ class Sim:
                 self.overlays.append(rec)
                 self.stack.append(rec)
                 self.pending_ov[cbn["id"]] = rec
+                g["ov_rec"] = rec
         elif seg == 2:
             act = g["act"]
             if node["ru"] is not None:
                 tr.binds.append(M.Bind(tr.tick(), act, "u", node["ru"]))
             if node["rw"] is not None:
                 tr.binds.append(M.Bind(tr.tick(), act, "w", node["rw"]))
+            n0 = len(tr.binds)
             M.simulate(node["post"], base=act, trace=tr)
+            if node["post"] and node["post"][0]["fn"] == "cbox":
+                rec = g.get("ov_rec")
+                self.closing[node["post"][0]["id"]] = rec if rec is not None and rec["close_t"] is None else None
+                if rec is not None and rec["close_t"] is None:
+                    rec["close_t"] = next(b.t for b in tr.binds[n0:] if b.act.fn == "cbox")
+                    if rec in self.stack:
+                        self.stack.remove(rec)
+                    self.flags.add("overlay-left-by-generator-body")
 
     def op_next(self, i):
         if not self.gens:
@@ -367,6 +389,7 @@ class Sim:
                 st_.force_clean()
         F.DISPATCH.update(F.RAW)
         F.DISPATCH.pop("cbov", None)
+        F.DISPATCH.pop("cbox", None)
 
 
 def _ids(children):
@@ -441,8 +464,8 @@ def strategy(max_ops):
 
     plans = T.plan_strategy(max_nodes=4, max_depth=3, fns=["fc", "fc", "fb", "fa"], raising=False)
     gnode = st.tuples(T.plan_strategy(max_nodes=4, max_depth=3, fns=["fc", "fc", "fb"], raising=False), st.booleans(),
-                      st.sampled_from([None, None, None, 0, 1, 4])
-                      ).map(lambda t: dict(t[0][0], swallow=t[1], enter_ov=t[2]))  # swallow: absorbs GeneratorExit
+                      st.sampled_from([None, None, None, 0, 1, 4]), st.booleans()
+                      ).map(lambda t: dict(t[0][0], swallow=t[1], enter_ov=t[2], own_exit=t[3]))  # swallow: absorbs GeneratorExit
     ov = st.tuples(st.just("ov"), st.sampled_from([0, 0, 4, 4, 1, 2, 3]))
     nxt = st.tuples(st.just("next"), st.integers(0, 2))
     call = st.tuples(st.just("call"), plans)
